@@ -159,12 +159,16 @@ def build(sp, omit=(), labels=None, originals=None, into=None):
     if st == 'replace' and into is None:
         # the documented public containers replaced wholesale by newly created ones, filled afterwards
         # ... every other time listing the labels in another order than the System does: the containers are keyed by label
-        order = list(sp['types']) if (spec_hash(sp) // 10) % 2 == 0 else list(reversed(sp['types']))
-        s.density = pyPRISM.Density([lab(t) for t in order])
-        s.diameter = pyPRISM.Diameter([lab(t) for t in order])
-        s.potential = pyPRISM.PairTable([lab(t) for t in order], 'potential')
-        s.closure = pyPRISM.PairTable([lab(t) for t in order], 'closure')
-        s.omega = pyPRISM.PairTable([lab(t) for t in order], 'omega')
+        hh = spec_hash(sp) // 10
+
+        def order(k):
+            # each container in its own order (bit k of the spec hash): the System's, or reversed
+            return list(sp['types']) if (hh >> k) % 2 == 0 else list(reversed(sp['types']))
+        s.density = pyPRISM.Density([lab(t) for t in order(0)])
+        s.diameter = pyPRISM.Diameter([lab(t) for t in order(1)])
+        s.potential = pyPRISM.PairTable([lab(t) for t in order(2)], 'potential')
+        s.closure = pyPRISM.PairTable([lab(t) for t in order(3)], 'closure')
+        s.omega = pyPRISM.PairTable([lab(t) for t in order(4)], 'omega')
     if 'domain' not in omit:
         s.domain = make_domain(sp)
     for name, table, vals in (('rho', s.density, sp['rho']), ('d', s.diameter, sp['d'])):
